@@ -68,6 +68,19 @@ class GenBinding:
                 "backend": self.backend, "dims": self.dims, "bin": self.bin_name, "epsilon": self.epsilon,
                 "container": self.container, "data_seed": self.data_seed}
 
+    def probe_labels(self, mab, full):
+        first = self.spec_label(mab.arms[0])
+        q = [{"op": "predict_expectations", "m": 5}, {"op": "predict", "m": 5}, {"op": "cold_arms"}]
+        base = q + [{"op": "partial_fit", "rows": [7, 8]}, {"op": "predict_expectations", "m": 3}]
+        if not full:
+            return [base]
+        return [base,
+                [{"op": "warm_start", "q": [1, 2]}, {"op": "cold_arms"}] + q,
+                [{"op": "partial_fit", "rows": [9, 10]}] + q,
+                [{"op": "add_arm", "arm": "d"}] + q + [{"op": "partial_fit", "rows": [7, 8, 9, 10]}] + q,
+                [{"op": "remove_arm", "arm": first}] + q,
+                [{"op": "fit", "rows": [2, 2]}] + q + [{"op": "warm_start", "q": [1, 1]}] + q]
+
     def skip(self):
         return ("arm_to_expectation",) if self.lp == "ts" and self.np is None else ()
 
@@ -220,9 +233,7 @@ class GenBinding:
         op, m = label["op"], label["m"]
         arms = list(obj.arms)
         if "readonly" in rep.checks:
-            after = snapshot(obj, rng=False, skip=skip)
-            if after != before:
-                rep.report("readonly.changed", "%s changed the model: %s" % (op, "; ".join(diff(before, after))), skey, label)
+            rep.check_readonly(obj, twin, op, before, skey, label, skip)
         rows, shape_ok = rows_of(value, m)
         if "shape" in rep.checks and not shape_ok:
             rep.report("shape.rows", "%s with %d rows returned %s" % (op, m, type(value).__name__), skey, label)
